@@ -23,7 +23,7 @@ LEVEL_TEXT = ("seeded search over (block combination, session-key class, decrypt
 LEVEL_NOTE = ("oracle: same session key, opened blocks equal in kind/selector/version/code, unopened blocks opaque with "
               "the original bytes, component content equal (encrypted components up to the declared length); a reader "
               "given a wrong-key decryptor may raise - only a returned file is compared")
-RUNS = {"quick": 4000, "thorough": 200000}
+RUNS = {"quick": 4000, "thorough": 120000}
 OPTIMIZED_PASS = {"quick": 300, "thorough": 4000}   # extra runs under PYTHONOPTIMIZE=1 (assert statements removed)
 RULE = ("per run one BEC2 file: non-empty ordered subset of {customer-key, ECC(selector 0-3, explicit or default "
         "recipient), update(code, version)} blocks, session key supplied or drawn from the RNG seam (forced into "
@@ -128,7 +128,8 @@ def run(case):
             out.probes["writer-keystore"] += 1
         head, binary = files.binary_of(w.durable)
         hdr, body_off = prov.parse_header(binary)
-        out.ev("written", len(binary), [t for t, _ in hdr], len(w.rng.draws))
+        import hashlib
+        out.ev("written", len(binary), [t for t, _ in hdr], len(w.rng.draws), hashlib.sha256(w.durable).hexdigest()[:12])
         able = sorted(w.decryptors)
         subsets = []
         for r in range(1, len(able) + 1):
